@@ -70,6 +70,10 @@ type Store struct {
 
 	// write faults: 1-based index of the write open whose stage fails
 	FailOpenAt, FailWriteAt, FailCommitAt int
+
+	// work budget (C13): once more than LoadBudget reads were requested every further read fails
+	LoadBudget     int
+	BudgetExceeded bool
 }
 
 func NewStore() *Store {
@@ -114,6 +118,10 @@ func (s *Store) openRead(_ linking.LinkContext, l datamodel.Link) (io.Reader, er
 	s.mu.Lock()
 	defer s.mu.Unlock()
 	s.Reads = append(s.Reads, c)
+	if s.LoadBudget > 0 && len(s.Reads) > s.LoadBudget {
+		s.BudgetExceeded = true
+		return nil, &ioFault{"load budget exceeded"}
+	}
 	if s.FailReadAt != 0 && len(s.Reads) == s.FailReadAt {
 		return nil, &ioFault{fmt.Sprintf("read #%d %s", s.FailReadAt, c)}
 	}
